@@ -521,6 +521,14 @@ pub fn make_case_e1(prop: &str, seed: u64, tier: Tier) -> Case {
             class = "no_recovery".into();
             Some(c)
         }
+        "C04" if seed % 4 == 0 => {
+            // untracked reads by members of fixpoint cycles
+            let mut c = CycCfg::base();
+            c.untracked_in_block = true;
+            c.block = (1, 4);
+            class = "cyclic_untracked".into();
+            Some(c)
+        }
         "C22" if seed % 5 < 2 => {
             let mut c = CycCfg::base();
             c.block = (1, 3);
@@ -548,6 +556,11 @@ pub fn make_case_e1(prop: &str, seed: u64, tier: Tier) -> Case {
         h.w_clone = 3;
         if prop == "C15" {
             h.steps = (4, 14);
+        }
+        if prop == "C04" {
+            h.w_setext = 30;
+            h.w_set = 10;
+            h.w_trigcancel = 0;
         }
         if prop == "C22" {
             h.steps = (4, 10);
